@@ -105,4 +105,4 @@ def result_equal(a, b, tol=0.0):
         return bool(((da == db) | (numpy.isnan(da) & numpy.isnan(db))).all())
     scale = numpy.maximum(1.0, numpy.abs(da))
     with numpy.errstate(invalid="ignore"):
-        return bool(((numpy.abs(da - db) <= tol * scale) | (da == db)).all())
+        return bool(((numpy.abs(da - db) <= tol * scale) | (da == db) | (numpy.isnan(da) & numpy.isnan(db))).all())
